@@ -685,6 +685,15 @@ func (e *SpecEnv) call(n SCall) (Term, error) {
 			return Term{}, fmt.Errorf("arrOf needs a slice")
 		}
 		return Term{S: fmt.Sprintf("(s_arr %s)", t.S), Sort: "Int", T: types.Typ[types.Int]}, nil
+	case "offOf": // offOf(s): index of s[0] within its backing array
+		t, err := e.eval(n.Args[0])
+		if err != nil {
+			return Term{}, err
+		}
+		if t.Sort != "Slice" {
+			return Term{}, fmt.Errorf("offOf needs a slice")
+		}
+		return Term{S: fmt.Sprintf("(s_off %s)", t.S), Sort: "Int", T: types.Typ[types.Int]}, nil
 	case "localArr": // localArr(s): s is nil or its backing array was allocated after function entry
 		t, err := e.eval(n.Args[0])
 		if err != nil {
